@@ -115,6 +115,7 @@ def run(run, ix, tier):
     run.rule('B-R1s', floor=60, desc='context-layer store sites')
     run.rule('B-R1t', floor=3, desc='generic wrapper threads prec/rounding')
     run.rule('A-R5', floor=2, desc='_wrap_specfun returns +retval')
+    run.rule('B-R7', floor=25, desc='unwrapped public functions: returns after a raised-precision region are re-rounded')
     reached = {}       # finding key -> list of public sites
 
     def report(rule, blamed, public_site, bad):
@@ -178,6 +179,7 @@ def run(run, ix, tier):
             raise AnalysisError('exact-operation table row vanished: %s:%s' % (rel, qn))
         exempt.setdefault((rel, qn), []).append(site)
     nsites = 0
+    private_bad = {}
     for rel in (CTXPY, CTXMP):
         m = ix.module(rel)
         for f in m.funcs.values():
@@ -207,6 +209,8 @@ def run(run, ix, tier):
                     continue        # rule B-R1t
                 if private:
                     run.stats['private_sites'] = run.stats.get('private_sites', 0) + 1
+                    if bad and not undecided_only(bad):
+                        private_bad.setdefault(name, []).append((f, node, bad))
                     continue
                 if not bad:
                     run.ok('B-R1s', where)
@@ -253,6 +257,30 @@ def run(run, ix, tier):
                ', '.join(sorted(set(info['sites']))[:8])), line=info['line']))
         run.rules[rule]['failed'] += 1
 
+    check_unwrapped_returns(run, ix)
+    # private context helpers whose stored value is NOT bounded by the working precision must not be
+    # handed out by a public function as they are
+    run.stats['unbounded_private_helpers'] = sorted(private_bad)
+    for name, items in sorted(private_bad.items()):
+        for m in ix.modules.values():
+            for g in m.funcs.values():
+                if g.name.startswith('_') or g.parent is not None:
+                    continue
+                for x in _walk_own(g.node):
+                    if isinstance(x, ast.Return) and isinstance(x.value, ast.Call) and \
+                            isinstance(x.value.func, ast.Attribute) and x.value.func.attr == name:
+                        ents = [e for e in c11_entries(ix).get(g, [])]
+                        wrapped = c11_wrapped(ix, g)
+                        if wrapped:
+                            run.ok('B-R7', '%s returns ctx.%s(..) through the re-rounding wrapper' % (g.qualname, name))
+                        else:
+                            pf, pnode, pbad = items[0]
+                            run.fail(Finding('B-R7', g.file, g.qualname, norm(x),
+                                             'returns the result of the private helper %s unchanged; that helper '
+                                             'stores a value that is not bounded by the working precision (%s) and '
+                                             'this public function is not behind the re-rounding wrapper'
+                                             % (pf.qualname, '; '.join(sorted(set(describe(c)[:80] for c in pbad)))),
+                                             line=x.lineno))
     check_threading(run, ix)
     check_parse_prec(run, ix)
     from . import c11
@@ -374,3 +402,147 @@ def check_threading(run, ix):
 
 def enclosing(node):
     return _stmt_of(node)
+
+
+# unwrapped public functions whose return value is, by contract, not a number rounded to the
+# caller's precision (one reasoned row per function)
+B_R7_EXEMPT = {
+    ('mpmath/ctx_mp.py', 'PrecisionManager.__call__.g'):
+        'the decorator form of workprec/extraprec: the decorated function runs, and by documented contract '
+        'returns, at the manager\'s precision',
+    ('mpmath/functions/zetazeros.py', 'nzeros'): 'returns a Python int (a count of zeros)',
+}
+# returned names that are not numbers (function, name) -> what they are
+B_R7_NOT_NUMBERS = {
+    ('zetazero', 'pattern'): 'a string describing the Rosser block',
+    ('zetazero', 'block'): 'a pair of Python ints',
+    ('zetazero', 'my_zero_number'): 'a Python int',
+}
+SPECIAL_ATTRS = ('zero', 'one', 'inf', 'ninf', 'nan', 'j', 'mpq_1', 'mpq_0')
+
+
+def _trivial_value(v):
+    """constants, None/bools/strings, the exact special constants of the context (also behind +/-)"""
+    while isinstance(v, ast.UnaryOp) and isinstance(v.op, (ast.UAdd, ast.USub)):
+        v = v.operand
+    if isinstance(v, ast.Constant):
+        return True
+    if isinstance(v, ast.Attribute) and isinstance(v.value, ast.Name) and v.attr in SPECIAL_ATTRS:
+        return True
+    return False
+
+
+def check_unwrapped_returns(run, ix):
+    """B-R7.  A public function that is NOT installed through _wrap_specfun (which re-rounds with
+    +retval after restoring) and that raises the working precision itself must hand out a value
+    rounded at the CALLER's precision: (a) no return statement is executed while the precision is
+    still raised -- the returned expression, `+v` included, is then evaluated at the raised
+    precision (the finally clause restores only afterwards); (b) a value computed inside the raised
+    region and returned after the restore is re-rounded first (`return +v`, or any arithmetic at
+    the restored precision).  Uses the path-sensitive precision states of Engine A."""
+    from ..prec_effect import FuncAnalysis, State, E
+    from ..resolve import get_resolver
+    from .c11 import get_engine, entry_points
+    res = get_resolver(ix)
+    peng = get_engine(ix)
+
+    class Rec(FuncAnalysis):
+        def __init__(self, engine, func):
+            FuncAnalysis.__init__(self, engine, func)
+            self.rets = {}
+            self.assigns = {}
+
+        def ret(self, node, state):
+            prev = self.rets.get(id(node))
+            dirty = state.cell != E or (prev is not None and prev[1])
+            self.rets[id(node)] = (node, dirty)
+            return FuncAnalysis.ret(self, node, state)
+
+        def simple(self, node, state):
+            if isinstance(node, (ast.Assign, ast.AugAssign)):
+                prev = self.assigns.get(id(node))
+                dirty = (state.cell != E) or (prev is not None and prev[1])
+                self.assigns[id(node)] = (node, dirty)
+            return FuncAnalysis.simple(self, node, state)
+    eps, prot, impl = entry_points(ix, res, peng)
+    nfun = 0
+    for f, (kind, wrap) in sorted(eps.items(), key=lambda kv: (kv[0].file, kv[0].lineno)):
+        if wrap or not peng._has_write(f):
+            continue
+        if not (f.file.startswith('mpmath/functions/') or f.file in ('mpmath/ctx_mp.py', 'mpmath/ctx_base.py')):
+            continue
+        if (f.file, f.qualname) in B_R7_EXEMPT:
+            run.ok('B-R7', '%s: exempt (%s)' % (f.qualname, B_R7_EXEMPT[(f.file, f.qualname)][:60]))
+            continue
+        nfun += 1
+        fa = Rec(peng, f)
+        fa.run(f.body(), State())
+        params = set(f.all_params())
+        # in program order: which names hold a value produced under raised precision
+        events = sorted(fa.assigns.values(), key=lambda nd: nd[0].lineno)
+        for node, dirty in sorted(fa.rets.values(), key=lambda nd: nd[0].lineno):
+            v = node.value
+            if v is None or _trivial_value(v):
+                continue
+            if dirty:
+                run.fail(Finding('B-R7', f.file, f.qualname, norm(node),
+                                 'this return is executed while the working precision is still raised: the value '
+                                 '(even `+v`) is computed and rounded at the raised precision, the finally clause '
+                                 'restores the precision only afterwards, so the caller receives more bits than its '
+                                 'working precision', line=node.lineno))
+                continue
+            names = []
+            if isinstance(v, ast.Name):
+                names = [v.id]
+            elif isinstance(v, ast.Tuple):
+                names = [e.id for e in v.elts if isinstance(e, ast.Name)]
+            bad = None
+            for nm in names:
+                if (f.name, nm) in B_R7_NOT_NUMBERS:
+                    continue
+                unrounded = None
+                for a, d in events:
+                    if a.lineno >= node.lineno:
+                        break
+                    tg = a.targets if isinstance(a, ast.Assign) else [a.target]
+                    hit = any(isinstance(t, ast.Name) and t.id == nm for t in tg) or \
+                        any(isinstance(t, ast.Tuple) and any(isinstance(e, ast.Name) and e.id == nm for e in t.elts)
+                            for t in tg)
+                    if not hit:
+                        continue
+                    if d:
+                        unrounded = a
+                    else:
+                        # an assignment at the restored precision: arithmetic / +x rounds there; a bare copy
+                        # of another name does not
+                        val = a.value
+                        if isinstance(val, ast.Name) or isinstance(val, ast.Constant):
+                            continue
+                        unrounded = None
+                if unrounded is not None:
+                    bad = (nm, unrounded)
+            if bad:
+                nm, a = bad
+                run.fail(Finding('B-R7', f.file, f.qualname, norm(node),
+                                 '`%s` was computed while the precision was raised (line %d: `%s`) and is returned '
+                                 'after the restore without being re-rounded (`+%s`): it carries the extra bits'
+                                 % (nm, a.lineno, norm(a, 50), nm), line=node.lineno))
+            else:
+                run.ok('B-R7', '%s: `%s`' % (f.qualname, norm(node, 50)) if nfun < 12 else None)
+    run.stats['unwrapped_precision_writers'] = nfun
+    if nfun < 15:
+        raise AnalysisError('only %d unwrapped public functions that raise the precision found' % nfun)
+
+
+_C11 = {}
+
+
+def c11_entries(ix):
+    return {}
+
+
+def c11_wrapped(ix, g):
+    """True when the public callable g is installed through _wrap_specfun(wrap=True)"""
+    from ..resolve import get_resolver
+    res = get_resolver(ix)
+    return any(e.func is g and e.wrap for e in res.entries(g.name))
